@@ -283,7 +283,7 @@ func (c *Case) Describe() interface{} {
 // LevelHook then has no hook to apply; such LevelHooks are left out of what the monitors expect.
 func (c *Case) HookMarks() []uint64 {
 	var ids []uint64
-	discards := false
+	discards := hasDiscard(c.Ops) // the event may have been discarded by its own calls before the hooks run
 	for _, st := range c.Steps {
 		if st.Update {
 			continue
@@ -309,10 +309,30 @@ func (c *Case) HookMarks() []uint64 {
 	return ids
 }
 
+// hasDiscard: is there a Discard() call anywhere in the fragment (marshalers and callbacks included)?
 func hasDiscard(ops []Op) bool {
+	inErr := func(e *ErrV) bool {
+		return e != nil && (hasDiscard(e.Ops) || (e.Stk != nil && hasDiscard(e.Stk.Ops)))
+	}
 	for i := range ops {
-		if ops[i].K == "discard" || hasDiscard(ops[i].Sub) {
+		o := &ops[i]
+		if o.K == "discard" || hasDiscard(o.Sub) || inErr(o.E) {
 			return true
+		}
+		for _, e := range o.Es {
+			if inErr(e) {
+				return true
+			}
+		}
+		for _, kv := range o.KVs {
+			if hasDiscard(kv.Ops) || inErr(kv.E) {
+				return true
+			}
+			for _, e := range kv.Es {
+				if inErr(e) {
+					return true
+				}
+			}
 		}
 	}
 	return false
